@@ -102,7 +102,9 @@ def run_shard(desc, ctx):
     keep = np.sort(rngl.permutation(n_)[:max(1100, n_ // 2)])
     edge = np.unique(np.clip(np.r_[b_[:-1], b_[1:] - 1, b_[1:-1] + 1], 0, n_ - 1))
     long_items = [np.arange(n_), np.unique(np.r_[keep, edge]), np.setdiff1d(keep, edge), np.arange(0, n_, 2)[:1024], np.arange(1, n_, 2)[:1023],
-                  np.unique(np.r_[keep, edge]).astype(np.int32), slice(None), slice(int(b_[1]) - 3 if len(parts) > 1 else 5, None), -1, int(b_[-2])]
+                  np.unique(np.r_[keep, edge]).astype(np.int32),
+                  # runs of consecutive rows that end at the largest value of a narrow index dtype
+                  np.arange(250, 256, dtype=np.uint8), np.arange(120, 128, dtype=np.int8), np.arange(200, 256).astype(np.uint8), slice(None), slice(int(b_[1]) - 3 if len(parts) > 1 else 5, None), -1, int(b_[-2])]
     run_case({'backend': 'flat' if sh % 8 < 6 else 'npy', 'ext': L.FLAT_EXT[sh % 4], 'offset': OFFSETS[sh % 4], 'dtype': DTYPES[sh % 6], 'nc': 2,
               'parts': parts if sh % 8 < 6 else [n_], 'items': long_items, 'cols': [None, [1, 0]]}, ctx)
     # one read of more than 16 MiB spanning three files
@@ -247,6 +249,12 @@ def open_layout(lay, d):
             if not lay.get('same_name'):
                 L.write_flat(os.path.join(d, 'work'), A[::-1].copy(), lay['parts'], offset=lay['offset'], ext=ext_)
             paths = [Path(d) / 'work' / 'lnk' / '..' / p.relative_to(d) for p in paths]
+        if len(paths) >= 2 and (n + nc + len(paths)) % 6 == 3 and not lay.get('relative') and not lay.get('dotdot'):
+            # one file listed twice in the recording (blank, stimulus, blank again): the recording is what the list says
+            paths = list(paths) + [paths[0]]
+            A = np.vstack([A, A[:lay['parts'][0]]]).astype(A.dtype)          # (vstack hands back native byte order)
+            lay = dict(lay, parts=list(lay['parts']) + [lay['parts'][0]])
+            n = A.shape[0]
         arg = paths if (len(paths) > 1 or n % 2) else paths[0]
         if lay.get('relative'):
             # environment: files named relative to the working directory, which changes before the first read;
